@@ -450,13 +450,15 @@ def worker(rec, shard, nshards, thorough, seed):
             continue
         for i, r in enumerate(rows8):
             want_cols = sorted(j for j, k in enumerate(r) if k == "unknown")
-            got_cols = sorted(x.get("ec_column") for x in issues if x["code"] == "TAG_INVALID" and x.get("ec_row") == i + 1)
+            got_cols = sorted((x.get("ec_column") for x in issues if x["code"] == "TAG_INVALID" and x.get("ec_row") == i + 1),
+                              key=repr)
             if [repr(c) for c in got_cols] != [repr(c) for c in want_cols]:
                 rec.violation("C07:cell-issue-location:headerless-sheet", file=tsv, row=i + 1, expected_columns=want_cols,
                               got=[(x.get("ec_row"), x.get("ec_column")) for x in issues if x["code"] == "TAG_INVALID"])
                 break
             ext_cols = sorted(j for j, k in enumerate(r) if k == "ext")
-            got_ext = sorted(x.get("ec_column") for x in issues if x["code"] == "TAG_EXTENDED" and x.get("ec_row") == i + 1)
+            got_ext = sorted((x.get("ec_column") for x in issues if x["code"] == "TAG_EXTENDED" and x.get("ec_row") == i + 1),
+                             key=repr)
             if [repr(c) for c in got_ext] != [repr(c) for c in ext_cols]:
                 rec.violation("C07:cell-warning-location:headerless-sheet", file=tsv, row=i + 1, expected_columns=ext_cols,
                               got=[(x.get("ec_row"), x.get("ec_column")) for x in issues if x["code"] == "TAG_EXTENDED"])
